@@ -1048,7 +1048,13 @@ class StrategyBase(Node):
         if self.fixed_income:
             [c.transact(-c.position, update=False) for c in self._childrenv if c.position != 0]
         else:
-            [c.allocate(-c.value, update=False) for c in self._childrenv if c.value != 0]
+            for c in self._childrenv:
+                # flatten sub-strategies first so that every position is closed
+                # exactly rather than pro-rata to (rounded) weights
+                if c.children:
+                    c.flatten()
+                if c.value != 0:
+                    c.allocate(-c.value, update=False)
 
         self.root.stale = True
 
